@@ -1,5 +1,6 @@
 -- root of the library: everything `lake build` (and MANIFEST.setup_cmd) checks
 import GlmVerif.Props.C02
+import GlmVerif.Props.C04
 import GlmVerif.Props.C07
 import GlmVerif.Props.C08
 import GlmVerif.Props.C09
